@@ -143,6 +143,7 @@ def gen_cases(tier, seed):
         for fam, c in (('comp3', 1), ('gen12', 2)):
             for cs in range(0, c + 1):
                 cases.append(dict(kind='hull_big', family=fam, drop=cs, aff=aff))
+    cases.append(dict(kind='session', name='find_ctrlpts'))
     # winding number
     for G, kmax in ([(3, 5), (4, 4)] if q else [(3, 5), (4, 6)]):
         for k in range(3, kmax + 1):
@@ -193,6 +194,8 @@ def case_weight(c):
     if k == 'vox':
         g = c['grid']
         return g[0] * g[1] * g[2] * (60 if c['cubes'] else 20)
+    if k == 'session':
+        return 20000
     if k == 'hull_big':
         n = 12 if c['family'] == 'gen12' else int(c['family'][-1]) ** 2
         return 40.0 * n ** c['drop']
@@ -208,8 +211,25 @@ def case_weight(c):
     return 10
 
 
+def _session_cases(name, tier):
+    """long session: find_ctrlpts on 90 curves and 30 surfaces with pairwise different knot vectors"""
+    out = []
+    for k in range(1, 91):
+        p = 1 + k % 3
+        kv = A.clamped_kv(p, [(k / 97.0, 1)] + ([(0.5 + k / 200.0, min(p, 2))] if k % 2 else []))
+        out.append(dict(kind='fc', shape=A.shape_desc([kv], [p], k % 4 == 0, 3, 'coded', 'coded')))
+        if k % 3 == 0:
+            kv2 = A.clamped_kv(1, [(k / 101.0, 1)])
+            out.append(dict(kind='fc', shape=A.shape_desc([kv, kv2], [p, 1], False, 3, 'coded')))
+    return out
+
+
 def run_case(case, ctx):
     k = case['kind']
+    if k == 'session':
+        import sys
+        from .. import core
+        return core.run_session(sys.modules[__name__], ctx, case, _session_cases(case['name'], ctx.tier), 20)
     if k == 'ray':
         _ray_case(case, ctx)
     elif k == 'is_left':
